@@ -394,6 +394,54 @@ impl World {
     }
 }
 
+/// Call first thing in an engine's `main`: when the process was started by `World::spawn_leaderless` it names itself
+/// (PR_SET_NAME), leaves one thread sleeping and ends its main thread only. The thread-group leader becomes a zombie
+/// while the process lives on: `/proc/<pid>/exe` and `cmdline` can no longer be read, `comm` (chosen by the process
+/// itself) can. Any program can arrange this.
+pub fn leaderless_helper_if_requested() {
+    if let Ok(name) = std::env::var("VERIF_LEADERLESS_HELPER") {
+        let c = std::ffi::CString::new(name).unwrap();
+        unsafe {
+            // (started as root so that the engine binary can be executed wherever it lies; drops to the wanted user itself)
+            if let Some(u) = std::env::var("VERIF_LEADERLESS_UID").ok().and_then(|u| u.parse::<u32>().ok()) {
+                libc::setgid(u);
+                libc::setuid(u);
+            }
+            libc::prctl(libc::PR_SET_NAME, c.as_ptr(), 0, 0, 0);
+        }
+        std::thread::spawn(|| loop {
+            std::thread::sleep(Duration::from_secs(100_000));
+        });
+        std::thread::sleep(Duration::from_millis(20));
+        unsafe {
+            libc::syscall(libc::SYS_exit, 0);
+        }
+        unreachable!();
+    }
+}
+
+impl World {
+    /// a helper process whose main thread has exited (see `leaderless_helper_if_requested`); returns its pid
+    pub fn spawn_leaderless(&self, comm: &str, uid: Option<u32>) -> u32 {
+        let mut cmd = std::process::Command::new(std::env::current_exe().unwrap());
+        cmd.env("VERIF_LEADERLESS_HELPER", comm).stdin(std::process::Stdio::null()).stdout(std::process::Stdio::null()).stderr(std::process::Stdio::null());
+        if let Some(u) = uid {
+            cmd.env("VERIF_LEADERLESS_UID", u.to_string());
+        }
+        let child = cmd.spawn().unwrap_or_else(|e| vcommon::result::machinery(&format!("spawn leaderless helper: {e}")));
+        let pid = child.id();
+        self.children.lock().unwrap().push(child);
+        for _ in 0..2000 {
+            let st = std::fs::read_to_string(format!("/proc/{pid}/stat")).unwrap_or_default();
+            if st.contains(") Z ") {
+                return pid;
+            }
+            std::thread::sleep(Duration::from_millis(1));
+        }
+        vcommon::result::machinery("the leaderless helper's main thread did not exit")
+    }
+}
+
 impl World {
     /// kill and reap the helper processes started from this executable (families that start hundreds of them)
     pub fn reap_children_named(&self, exe_path: &str) {
